@@ -7,6 +7,7 @@ import (
 	"fmt"
 	"math/big"
 	"sync"
+	"sync/atomic"
 	"time"
 
 	"github.com/golang/protobuf/proto"
@@ -285,9 +286,9 @@ func (t *Tx) SortUnconfirmedTx() (map[string]*pb.Transaction, TxGraph, map[strin
 		avgDelay := totalDelay / txMapSize //平均unconfirm滞留时间
 		microSec := avgDelay / 1e6
 		t.log.Info("average unconfirm delay", "micro-senconds", microSec, "count", txMapSize)
-		t.AvgDelay = microSec
+		atomic.StoreInt64(&t.AvgDelay, microSec)
 	}
-	t.UnconfirmTxAmount = txMapSize
+	atomic.StoreInt64(&t.UnconfirmTxAmount, txMapSize)
 	return txMap, txGraph, delayedTxMap, nil
 }
 
@@ -309,7 +310,7 @@ func (t *Tx) LoadUnconfirmedTxFromDisk() error {
 		t.UnconfirmTxInMem.Store(txid, tx)
 		count++
 	}
-	t.UnconfirmTxAmount = int64(count)
+	atomic.StoreInt64(&t.UnconfirmTxAmount, int64(count))
 	return nil
 }
 
